@@ -293,7 +293,14 @@ fn c02_gen(seed: u64, run: u64, thorough: bool) -> Plan {
         allow_stalls: true,
         phases: r.range(1, 4),
     };
-    let mut plan = world_a_general("C02", "a_fault_then_fair", seed, run, &sc, true);
+    // every third run leans on the parent-lead patterns (a Reliable packet, then 126..300 small
+    // packets of other modes behind it, on one or two channels)
+    let mut plan = world_a_general_with("C02", "a_fault_then_fair", seed, run, &sc, true, &|w| {
+        if run % 3 == 1 {
+            w.lead_pattern_p = 0.5;
+            w.channels = w.channels.max(2);
+        }
+    });
     // bounded backlog: at most 64 frames worth of payload per direction
     let mut bytes = [0u64; 2];
     plan.timeline.retain(|t| match &t.op {
@@ -322,7 +329,7 @@ pub fn c02() -> CheckDef {
         property: "C02",
         families: vec![Family { name: "a_fault_then_fair", world: "A", weight: 3, gen: c02_gen, oracles: c02_oracles, adversary: None, keep_workload: false, custom: None,
             what: "finite fault prefix (loss/dup/reorder/flips/blackouts/ack- or sync-targeted loss, stalls) then a fair link (<= 200 ms, stepping <= 200 ms); safety on every delivery, liveness at quiescence or after T_live = 900 s + 128 s x 80 frames" },
-            Family { name: "b_fault_then_fair", world: "B", weight: 1, gen: c02_gen_b, oracles: c02_oracles, adversary: None, keep_workload: false, custom: None,
+            Family { name: "b_fault_then_fair", world: "B", weight: 2, gen: c02_gen_b, oracles: c02_oracles, adversary: None, keep_workload: false, custom: None,
                 what: "the same through the public API: real Client/Server (1-3 clients, both directions), faults until the heal, then a fair link; at most 64 frames of payload per direction" },
             Family { name: "b_one_way_stream", world: "B", weight: 1, gen: c02_gen_one_way, oracles: c02_oracles, adversary: None, keep_workload: false, custom: None,
                 what: "loss-free link (latency 0.1-100 ms, jitter, duplicates), one side streams Reliable packets every 3 ms .. timeout/3 for 2-4 (thorough: 2-8) silence timeouts (1.5-25 s), the other side only acknowledges, with its keepalive off, slower than the timeout, or on: nothing may end the connection, so every packet has to arrive" }],
